@@ -100,6 +100,25 @@ function namesOfModule(SPC, mod) {
   return mod.defNames;
 }
 
+// Precondition of known finding KF-C16-4: two parsers of the module, each printed alone into a
+// fresh context, produce a synthetic discriminated-union variant definition with the SAME name
+// (it is derived from the 32-bit structural hash, which ignores alias boundaries) but DIFFERENT
+// bodies (one spells a member inline, the other goes through a named type).
+function syntheticNameCollision(SPC, mod, cfg) {
+  const seen = new Map();
+  for (const n of mod.names) {
+    const f = freshSingle(SPC, mod, cfg, n);
+    if (!f.ok) continue;
+    for (const [k, body] of Object.entries(f.defs)) {
+      if (!k.startsWith("Discriminated")) continue;
+      const c = canon(body);
+      if (seen.has(k) && seen.get(k) !== c) return k;
+      seen.set(k, c);
+    }
+  }
+  return null;
+}
+
 function genC16(mods, SPC, index) {
   const rng = new Rng(ROOT, "C16", index);
   // half of the runs on modules that have shared named definitions, recursion, or throwing parsers
@@ -233,6 +252,10 @@ async function execC16(mods, SPC, run) {
     }
   }
   out.refs = refs.length;
+  if (out.violations.length) {
+    const k = syntheticNameCollision(SPC, base, cfg);
+    if (k) out.syntheticNameCollision = k;
+  }
   out.sig = fnv32(canon(run));
   out.nontrivial = out.prints >= 2 && out.defs >= 1;
   return out;
@@ -612,6 +635,11 @@ async function main() {
       }
       if (index < 3 && r.run) agg.samples.push({ run_index: index, ...r.run, observed: { prints: r.prints, throws: r.throws, writes: r.writes, bytes: r.bytes, definitions: r.defs, violations: r.violations.map((v) => v.class) } });
       for (const v of r.violations) {
+        if (r.syntheticNameCollision && ["export-depends-on-call-history", "definition-differs-from-fresh-single-print", "dangling-ref"].includes(v.class)) {
+          agg.kf164 = (agg.kf164 || 0) + 1;
+          agg.kf164example = agg.kf164example ?? `${r.run ? r.run.module : "?"} / ${r.syntheticNameCollision}`;
+          continue;
+        }
         const cur = agg.viol.get(v.class);
         if (!cur || index < cur.index) agg.viol.set(v.class, { index, v, run: r.run });
       }
@@ -641,6 +669,11 @@ async function main() {
   }
   const reported = [];
   const kfLines = [];
+  if (agg.kf164) {
+    const kf = findings.find((k) => k.status === "open" && k.id === "KF-C16-4");
+    if (kf) kfLines.push(`KNOWN-FINDING: property=C16 ${kf.what_fails_short} (e.g. ${agg.kf164example}) [${kf.id}] (x${agg.kf164})`);
+    else agg.viol.set("synthetic-variant-definition-name-collision", { index: -1, v: { property: "C16", class: "synthetic-variant-definition-name-collision", detail: { example: agg.kf164example, count: agg.kf164 } }, run: { module: "?", ctx: {}, ops: [] } });
+  }
   for (const [cls, { index, v, run }] of [...agg.viol.entries()].sort()) {
     const kf = findings.find((k) => k.status === "open" && k.property === prop && k.signature && k.signature.kind === "jsim-class" && cls.startsWith(k.signature.class));
     if (kf) {
